@@ -100,6 +100,11 @@ CHECKS = {
         text="-race builds of all three drivers; scripted, BLS, PS and EdDSA backends; loud and silent mode; the out-of-phase scenarios re-send an earlier session's broadcast-class messages 0..200 us behind each transmission (the detector decides happens-before, the workload only has to make both sides execute without an intervening lock hand-over). A report whose frames are all in the harness is a harness failure (exit 3), reports with third-party frames only are counted, not judged.",
         note="Reports vary from run to run: the quick tier repeats each scenario 10-12 times, thorough 100-120 times. Interleavings not produced are not covered.",
         design="2/C20"),
+    "C10": dict(level="exploration", engine="hcore+hcrypto+hbinance",
+        technique="runtime monitoring with structure-aware hostile inputs: a corpus captured from honest runs of this build (sync, MPC, acknowledgement, DKG, adapter messages; stored data, requests, signatures, parameters, proofs) is mutated (prefixes, extensions, header bytes, bit flips, asn.1-aware edits, hostile topics and types) and fed to every entry point in the session states idle / synchronising / running / finished; crash = child death observed by the parent (or a per-call recover that lists every crash site), hang = batch watchdog, wedge = service-continuity probe",
+        text="About 430k dispatcher/buffer/synchroniser calls, 7k calls into the built-in schemes' handlers, signers, verifiers and prover, 3k into the EdDSA adapter (thorough: ECDSA too) and 270 hostile handshakes per quick run; Byzantine disc plans (response flood etc.) run under this property with a wedge oracle. After hostile input from non-participants (and from a participant on other topics) the honest session must complete everywhere.",
+        note="Documented API-contract panics on local misuse are not exercised. The corpus is whatever this build emits, so a benign format change neither raises an alarm nor silently removes the inputs' structure.",
+        design="2/C10"),
 }
 
 NOT_YET = {}
